@@ -9,7 +9,7 @@ THEOREMS = {
     'C03': ['C01_getter_exact', 'C02_setter_exact', 'C03_oob_panics', 'C01_generator_model_every_getter', 'C02_generator_model_every_setter', 'C03_generator_model_out_of_range_index_panics'],
     'C04': ['C01_getter_exact', 'C02_setter_exact', 'C01_bit_weights', 'C02_readback', 'C02_frame', 'C01_generator_model_every_getter', 'C02_generator_model_every_setter', 'C04_distinct_bits_fit_the_base'],
     'C05': ['C01_getter_exact', 'C02_setter_exact', 'C01_generator_model_every_getter', 'C02_generator_model_every_setter'],
-    'C06': ['C06_raw_value_exact', 'C06_new_with_raw_value_exact', 'C06_storage_minimal', 'C06_generator_model_raw_value', 'C06_generator_model_new_with_raw_value', 'model_macro_end_to_end'],
+    'C06': ['C06_raw_value_exact', 'C06_new_with_raw_value_exact', 'C06_storage_minimal', 'C06_generator_model_raw_value', 'C06_generator_model_new_with_raw_value', 'C06_zero_and_default_carry_the_declared_value', 'model_macro_end_to_end'],
     'C07': ['C07_new_returns_the_variant_with_that_discriminant', 'C07_err_when_no_variant', 'C07_raw_then_new',
             'C07_new_then_raw', 'C07_never_panics', 'C10_no_variant_is_unrepresentable', 'C07_real_match_is_the_model_conversion'],
     'C08': ['C01_getter_exact', 'C02_setter_exact', 'C01_generator_model_every_getter', 'C02_generator_model_every_setter'],
